@@ -94,6 +94,14 @@ func contractEconomy(ev *vlib.Evidence, prop, driver string, idx int) {
 		dep(wh, 500)
 	}
 
+	if idx%6 == 5 {
+		// a busy pool: the deposits of a few thousand other wallets have been looked up before
+		crowd := vlib.Scale(2200, 5000)
+		for i := 0; i < crowd; i++ {
+			w.Contract.Pay.GetAccountBalance(store.Account(fmt.Sprintf("0x%040x", 0x1000000+idx*100000+i)))
+		}
+		ev.Count("contract-economy-other-wallets-looked-up", int64(crowd))
+	}
 	h1, h2 := vlib.NewIdentity("ce-host", (idx*2)%23), vlib.NewIdentity("ce-host", (idx*2+1)%23)
 	client := vlib.NewIdentity("ce-client", idx%11)
 	for i, h := range []*vlib.Identity{h1, h2} {
